@@ -1,10 +1,17 @@
 pub mod c13;
+pub mod conn;
 
 use crate::runner::Prop;
 use std::sync::Arc;
 
 pub fn all() -> Vec<Arc<dyn Prop>> {
-    vec![Arc::new(c13::C13)]
+    vec![
+        Arc::new(conn::ConnProp { id: "C05" }),
+        Arc::new(conn::ConnProp { id: "C06" }),
+        Arc::new(conn::ConnProp { id: "C07" }),
+        Arc::new(conn::ConnProp { id: "C08" }),
+        Arc::new(c13::C13),
+    ]
 }
 
 pub fn by_id(id: &str) -> Option<Arc<dyn Prop>> {
